@@ -264,7 +264,7 @@ type migWS struct {
 	// InputMod is the module whose directory is used as a second input next to the workspace directory
 	// (layout "work" only).
 	InputMod int
-	files   []*migProto // all files in index order
+	files    []*migProto // all files in index order
 }
 
 // ---------------------------------------------------------------------------------------------
